@@ -47,7 +47,7 @@ LEVEL_NOTE = (
     "normalising both sides, and fsutil.snapshot (os.walk without following links)."
 )
 CLASSES = [
-    "nested_in_job", "nested_in_subdir", "symlinked_job", "relative_path", "search_false",
+    "nested_in_job", "nested_in_subdir", "symlinked_job", "relative_path", "search_false", "legacy_rc_file_inside_project",
     "nonexistent", "depth>=4", "init_existing", "init_fresh", "two_ids_on_path", "jobdir_is_project",
 ]
 ASSUMPTIONS = [
@@ -185,7 +185,10 @@ def build_model(case):
             path = here + (name,)
             m.maxdepth = max(m.maxdepth, depth)
             if t == "dir":
-                m.add(path, kind="dir", node_depth=depth, njobs_above=njobs_above, nproj_above=nproj_above)
+                # (a left-over signac 1.x project file in a plain directory *inside* a current project: the
+                # enclosing project is still the answer for every path at or below it)
+                m.add(path, kind="dir", node_depth=depth, njobs_above=njobs_above, nproj_above=nproj_above,
+                      legacy=bool(node.get("legacy")) and nproj_above >= 1)
                 plain(node.get("ch") or [], path, depth + 1, set(), njobs_above, nproj_above)
             else:
                 cfg = int(node.get("cfg", 0)) % len(CONFIGS)
@@ -304,6 +307,8 @@ def materialise(m, root):
         else:
             if not (rec["proj"] and rec["cfg"] == 0):
                 os.mkdir(P(path))
+            if rec.get("legacy"):
+                _write(os.path.join(P(path), "signac.rc"), b"project = old\nschema_version = 1\n")
         if rec["proj"]:
             text = CONFIGS[rec["cfg"]]
             if text is None:
@@ -495,7 +500,8 @@ def _run_tree(case, ctx, m, root, signac):
             before = after
 
     # 4. init_project on plain directories
-    plains = [p for p in m.order if m.dirs[p]["kind"] in ("dir", "root")]
+    # (a directory holding a signac 1.x project file is not "plain": init_project refuses it -- C20)
+    plains = [p for p in m.order if m.dirs[p]["kind"] in ("dir", "root") and not m.dirs[p].get("legacy")]
     chosen = []
     for k in case.get("fresh") or []:
         p = plains[int(k) % len(plains)]
@@ -543,6 +549,8 @@ def classify(m):
         rec = m.dirs[p]
         if rec["node_depth"] >= 4:
             cl.add("depth>=4")
+        if rec.get("legacy"):
+            cl.add("legacy_rc_file_inside_project")
         if rec["kind"] == "proj":
             cl.add("init_existing")
             if rec["nproj_above"] >= 1:
@@ -599,7 +607,7 @@ def _ws_children(d):
 
 @functools.lru_cache(maxsize=None)
 def _dir_node(d):
-    return st.fixed_dictionaries({"t": st.just("dir"), "n": names, "ch": _plain_children(d - 1)})
+    return st.fixed_dictionaries({"t": st.just("dir"), "n": names, "ch": _plain_children(d - 1), "legacy": st.sampled_from([False, False, False, True])})
 
 
 @functools.lru_cache(maxsize=None)
